@@ -13,7 +13,7 @@ PROP = "C03"
 LEVEL = "exploration"
 SHARDS = {"quick": 4, "thorough": 16}
 TIME_CAP = {"quick": 200, "thorough": 2400}
-KINDS = ["random", "consistent", "moving", "level", "inverted", "vertical"]
+KINDS = ["random", "consistent", "moving", "level", "inverted", "vertical", "pure-pitch", "pure-roll", "sparse"]
 REGIONS = {"hist:" + k: 12 for k in KINDS}
 TOL_UNIT = 1e-9
 
@@ -81,7 +81,7 @@ PROBES = STEP_PROBES
 REQUIRED_PROBES = ["madgwick.Madgwick.updateIMU", "mahony.Mahony.updateMARG", "ekf.EKF.update", "aqua.AQUA.updateMARG", "roleq.ROLEQ.update",
                    "fourati.Fourati.update", "fkf.FKF.kalman_update", "angular.AngularRate.update"]
 RULE = ("cases = one sensor history (2..80 samples) of a kind (random physically inconsistent with acc/mag >= 1 deg from parallel and magnitudes "
-        "1e-2..1e3; consistent static; slowly moving; exactly level at a random heading; exactly inverted; an axis exactly vertical) plus one draw of "
+        "1e-2..1e3; consistent static; slowly moving; exactly level at a random heading; exactly inverted; an axis exactly vertical; pure pitch / pure roll with an exactly-zero measured component; random rows with exactly-zero components) plus one draw of "
         "parameters (defaults, or random gains / sampling rate 1 Hz..2 kHz / noise variances over 4 decades / dip +-80 deg / weights); each case "
         "drives all 46 estimator configurations; non-trivial = all")
 ASSUMPTIONS = ["validity only (unit norm 1e-9, proper rotation 1e-9, finite, real, one row per sample) - accuracy is C04/C05",
@@ -109,9 +109,12 @@ def setup(pr):
 def make_history(rng, kind, n, psi=None):
     gscale = gens.logu(rng, 1e-3, 3.0)
     g = rng.standard_normal((n, 3)) * gscale
-    if kind == "random":
+    if kind in ("random", "sparse"):
         a = rng.standard_normal((n, 3)) * gens.logu(rng, 1e-2, 1e2)
         m = rng.standard_normal((n, 3)) * gens.logu(rng, 1e-2, 1e3)
+        if kind == "sparse":                           # exactly-zero components (quantised or axis-aligned readings)
+            for arr in (a, m, g):
+                arr[rng.random(arr.shape) < 0.3] = 0.0
     else:
         dip = np.radians(rng.uniform(-80, 80))
         mref = np.array([np.cos(dip), 0.0, np.sin(dip)])
@@ -121,6 +124,11 @@ def make_history(rng, kind, n, psi=None):
             q = rq.axang2q([0, 0, 1.0], psi if (fixed or rng.random() < 0.7) else float(rng.choice([0.0, np.pi / 2, np.pi, -np.pi / 2])))
         elif kind == "inverted":
             q = rq.qmul(rq.axang2q([0, 0, 1.0], psi), rq.axang2q([1.0, 0, 0], np.pi))
+        elif kind in ("pure-pitch", "pure-roll"):      # rotation about one body axis: a measured component is exactly zero
+            ang = float(rng.choice([np.radians(float(rng.integers(-89, 90))), rng.uniform(-np.pi, np.pi)])) if not fixed else psi
+            q = rq.axang2q([0, 1.0, 0] if kind == "pure-pitch" else [1.0, 0, 0], ang)
+            if rng.random() < 0.5:
+                mref = np.array([np.cos(dip), 0.0, np.sin(dip)])
         elif kind == "vertical":
             ax = [[1.0, 0, 0], [0, 1.0, 0]][int(rng.integers(2))]
             q = rq.qmul(rq.axang2q([0, 0, 1.0], psi), rq.axang2q(ax, float(rng.choice([-1, 1])) * np.pi / 2))
@@ -128,7 +136,14 @@ def make_history(rng, kind, n, psi=None):
             q = gens.unit(rng)
         R = rq.refR(q)
         sa, sm = gens.logu(rng, 0.5, 20.0), gens.logu(rng, 1.0, 100.0)
-        if kind == "moving":
+        if kind in ("pure-pitch", "pure-roll"):
+            c, s_ = np.cos(ang), np.sin(ang)       # exact zeros: build the rows from the closed form instead of a matrix product
+            if kind == "pure-pitch":
+                a1, m1 = np.array([-s_, 0.0, c]) * sa, np.array([c * mref[0] - s_ * mref[2], 0.0, s_ * mref[0] + c * mref[2]]) * sm
+            else:
+                a1, m1 = np.array([0.0, s_, c]) * sa, np.array([mref[0], s_ * mref[2], c * mref[2]]) * sm
+            a, m = np.tile(a1, (n, 1)), np.tile(m1, (n, 1))
+        elif kind == "moving":
             a, m = [], []
             for t in range(n):
                 a.append(rq.refR(q).T @ np.array([0, 0, 1.0]) * sa)
@@ -172,16 +187,82 @@ def make_params(rng, default):
 
 def generate(rng, tier, shard, nshards):
     if shard == 0:   # canonical poses every run: level at the four cardinal headings, inverted, vertical (default parameters)
-        for kind, psi in [("level", 0.0), ("level", np.pi / 2), ("level", np.pi), ("level", -np.pi / 2), ("inverted", 0.0), ("inverted", 0.7), ("vertical", 0.0)]:
+        for kind, psi in [("level", 0.0), ("level", np.pi / 2), ("level", np.pi), ("level", -np.pi / 2), ("inverted", 0.0), ("inverted", 0.7), ("vertical", 0.0), ("pure-pitch", 2.5), ("pure-pitch", -0.6), ("pure-roll", 2.5)]:
             g, a, m = make_history(rng, kind, 6, psi=psi)
             yield Case("all", "hist:" + kind, g=g, a=a, m=m, P={}, default=True, seed=1)
-    n = gens.budget(96, tier, nshards, mult=10)
+        # magnetometer exactly along one body axis (quantised / saturated reading)
+        for a1, m1 in (([-10.0, -0.18, 8.5], [0.0, -527.0, 0.0]), ([0.38, -0.17, 0.54], [0.0, 18.6, 147.8])):
+            yield Case("all", "hist:sparse", g=rng.standard_normal((6, 3)) * 0.05, a=np.tile(np.array(a1), (6, 1)), m=np.tile(np.array(m1), (6, 1)), P={}, default=True, seed=1)
+        # level sensor heading exactly magnetic south (exact zero east component) and the same pitched about the east axis
+        for pitch in (0.0, 0.4):
+            c, s_ = np.cos(pitch), np.sin(pitch)
+            d = np.radians(50.0)
+            a1 = np.array([-s_, 0.0, c]) * 9.8
+            m1 = np.array([-(c * np.cos(d)) - s_ * np.sin(d), 0.0, -s_ * -np.cos(d) + c * np.sin(d)]) * 45.0
+            g = rng.standard_normal((6, 3)) * 0.05
+            yield Case("all", "hist:pure-pitch", g=g, a=np.tile(a1, (6, 1)), m=np.tile(m1, (6, 1)), P={}, default=True, seed=1)
+    n = gens.budget(144, tier, nshards, mult=10)
     for i in range(n):
         kind = KINDS[i % len(KINDS)]
         N = int(rng.integers(2, 81))
         g, a, m = make_history(rng, kind, N)
         default = bool((i // len(KINDS)) % 2 == 0)
         yield Case("all", "hist:" + kind, g=g, a=a, m=m, P=make_params(rng, default), default=default, seed=int(rng.integers(2**31)))
+
+
+def pose_class(a, m, needs):
+    """Mechanism label of one sample: which exact (measure-zero) coincidences it has.  'generic' = none."""
+    tags = []
+    a = np.asarray(a, float)
+    if "a" in needs:
+        nz = np.abs(a) > 1e-9 * np.abs(a).max()
+        if nz.sum() == 1:
+            tags.append("acc-level" if (nz[2] and a[2] > 0) else ("acc-inverted" if nz[2] else "acc-along-x/y"))
+        elif nz.sum() == 2:
+            tags.append("acc-zero-component")
+    if "m" in needs and m is not None:
+        m = np.asarray(m, float)
+        if (np.abs(m) <= 1e-9 * np.abs(m).max()).any():
+            tags.append("mag-zero-component")
+    return "pose:special(" + "+".join(tags) + ")" if tags else "pose:generic"
+
+
+def first_failing_sample(fn, F, g, a, m, P, n):
+    """Smallest k such that the run over the first k+1 samples already fails (exception or non-finite output)."""
+    for k in range(n):
+        kk = max(k + 1, 2)
+        try:
+            import warnings
+            with warnings.catch_warnings():
+                warnings.simplefilter("ignore")
+                with np.errstate(all="ignore"):
+                    out = np.asarray(fn(F, g[:kk].copy(), a[:kk].copy(), m[:kk].copy(), {kx: (dict(v) if isinstance(v, dict) else v) for kx, v in P.items()}))
+            if out.dtype == object or np.iscomplexobj(out) or not np.all(np.isfinite(out.astype(float))):
+                bad_rows = np.where(~np.all(np.isfinite(out.astype(float).reshape(len(out), -1)), axis=1))[0] if out.dtype != object else [k]
+                return int(bad_rows[0]) if len(bad_rows) else k
+        except Exception:
+            return 0 if kk == 2 and k == 0 and _fails_on(fn, F, g, a, m, P, [0, 0]) else min(k, n - 1) if kk > 2 else (1 if not _fails_on(fn, F, g, a, m, P, [0, 0]) else 0)
+    return None
+
+
+def _fails_on(fn, F, g, a, m, P, idx):
+    try:
+        import warnings
+        with warnings.catch_warnings():
+            warnings.simplefilter("ignore")
+            with np.errstate(all="ignore"):
+                out = np.asarray(fn(F, g[idx].copy(), a[idx].copy(), m[idx].copy(), {kx: (dict(v) if isinstance(v, dict) else v) for kx, v in P.items()}))
+        return out.dtype == object or not np.all(np.isfinite(out.astype(float)))
+    except Exception:
+        return True
+
+
+def short_msg(exc):
+    """Exception message with numbers removed (part of the mechanism key of a C03 violation)."""
+    import re
+    t = re.sub(r"[-+]?[0-9]+(\.[0-9]*)?(e[-+]?[0-9]+)?", " ", str(exc))
+    t = re.sub(r"\bnan\b|\binf\b|[\[\]]", " ", t)
+    return re.sub(r"\s+", " ", t)[:48].strip()
 
 
 def validity(ctx, name, rep, val, n, region):
@@ -222,11 +303,20 @@ def check(case, ctx):
         _step_log["first_bad"] = None
         np.random.seed(int(case.p["seed"]))
         out = call(fn, F, g.copy(), a.copy(), m.copy(), {k: (dict(v) if isinstance(v, dict) else v) for k, v in P.items()})
+        nv = len(ctx.viols)
         if not out.ok:
-            ctx.returned(out, route=name, region=region)
-            continue
-        ctx.returned(out, route=name)
-        validity(ctx, name, rep, out.value, n, region)
+            ctx.returned(out, clause="no-exception[%s]" % short_msg(out.exc), route=name, region=region)
+        else:
+            ctx.returned(out, route=name)
+            validity(ctx, name, rep, out.value, n, region)
+        if len(ctx.viols) > nv:
+            # mechanism label: the exact coincidences (zero components) of the first sample the estimator fails on
+            k = first_failing_sample(fn, F, g, a, m, P, n)
+            lab = pose_class(a[k], m[k], needs) if k is not None else "pose:unknown"
+            for v in ctx.viols[nv:]:
+                v.region = lab
+                if isinstance(v.detail, dict):
+                    v.detail.update(failing_sample=k, acc=a[k] if k is not None else None, mag=m[k] if k is not None else None, history=region)
 
 
 def extra_evidence():
